@@ -40,16 +40,31 @@ EVENTS = {
     "in_section": [b"sec { x = 1\n"],
     "in_list": [b"l = { 1, 2\n"],
     "dq_then_more": [b's = "one\n', b'two"\n'],
+    # a single section entered (and left, or not) by an earlier parse under another source name
+    "sec_ok": [b"sec { x = 1 }\ni = 3\n"],
+    "sec_from_file": ["PF:secfile.conf"],
+    "sec_from_stream": ["PS:" + "sec { x = 3 }\n"],
+    "sec_bad_in_include": [b'sec { include("bad.conf") }\n'],
 }
 PROBES = [b"i = 5\n", b's = "str"\n', b"s = 'sq'\n", b"/* c */ i = 6\n", b"l = {7, 8}\n", b"sec { x = 9 }\n", b'm "t" { y = v }\n',
-          b'include("good.conf")\n', b"i = x\n", b'"\n', b"*/ i = 7\n", b"'\n", b"f = 1.5\n", b"f = 2.5 i = 0x10\n"]
-FILES = [("bad.conf", b"i = 1\n= broken\n"), ("dq.conf", b's = "open\n'), ("self.conf", b'include("self.conf")\n'), ("good.conf", b"i = 77\n")]
+          b'include("good.conf")\n', b"i = x\n", b'"\n', b"*/ i = 7\n", b"'\n", b"f = 1.5\n", b"f = 2.5 i = 0x10\n",
+          # diagnostics inside a re-opened single section and after it has closed: they name the source being read now
+          b"sec { x = 9 }\ni = bad\n", b"sec {\n x = q }\n", b"sec { x = 2 }\n\nsec { }\n= broken\n"]
+FILES = [("secfile.conf", b"sec { x = 2 }\ni = 4\n"), ("bad.conf", b"i = 1\n= broken\n"), ("dq.conf", b's = "open\n'), ("self.conf", b'include("self.conf")\n'), ("good.conf", b"i = 77\n")]
 
 
 def event_lines(ev, ctxno):
     if ev == "free_reinit":
         return ["F %d" % ctxno, "X %d 0" % ctxno]
-    return ["PB %d %s" % (ctxno, hx(t)) for t in EVENTS[ev]]
+    out = []
+    for t in EVENTS[ev]:
+        if isinstance(t, str) and t.startswith("PF:"):
+            out.append("PF %d %s" % (ctxno, hx(t[3:])))
+        elif isinstance(t, str) and t.startswith("PS:"):
+            out.append("PS %d %s" % (ctxno, hx(t[3:])))
+        else:
+            out.append("PB %d %s" % (ctxno, hx(t)))
+    return out
 
 
 def mk(cid, hist, probe_idx, root):
